@@ -22,7 +22,7 @@ SPEC = {
     "thorough": {"shards": 16, "time_cap": 1500, "queries": 25000},
 }
 FEATS = dict(window=True, any_sub=False, setops_all=False, stars="base-only", cte_cols=True, unqualified=0.4, star_dup_order=False,
-             max_depth=3, using=False, scalar_setop=True, nested_with=True, natural_join=0.2)
+             max_depth=3, using=False, scalar_setop=True, nested_with=True, natural_join=0.2, derived_setop=0.1)
 
 
 def leaves(node):
